@@ -96,6 +96,27 @@ def impl(case):
                 except Exception as e:
                     tv.append({"err": C.exc_enum(e)})
             ex["transform"] = tv
+            # with a bounding box on the WCS (a box that holds none of the points): between frames other than from the input frame the
+            # default call is still the plain composition - the box belongs to the pixel inputs of the first step
+            # (pairs that do not cross the first step: astropy gives the inverse of a boxed model a box of its own)
+            if a in snap_names and b in snap_names and a != b and snap_names.index(a) >= 1 and snap_names.index(b) >= 1:
+                tb = []
+                try:
+                    n0 = w.pipeline[0].transform.n_inputs
+                    old_box = w.bounding_box
+                    w.bounding_box = tuple((-1e-3, 1e-3) for _i in range(n0)) if n0 > 1 else (-1e-3, 1e-3)
+                    try:
+                        for p in q["pts"]:
+                            try:
+                                r = w.transform(ao, b, *G.to_float_pt(p))
+                                tb.append({"ok": G.canon_vals(r, len(r) if isinstance(r, tuple) else 1)})
+                            except Exception as e:
+                                tb.append({"err": C.exc_enum(e)})
+                    finally:
+                        w.bounding_box = old_box
+                    ex["transform_boxed"] = tb
+                except Exception:
+                    pass
             # the same whole-number points as arrays of every numeric dtype: one answer
             dts = {}
             ipts = [[float(abs(round(v))) for v in G.to_float_pt(p)] for p in q["pts"]]
@@ -285,6 +306,9 @@ def oracle(case, res):
                         break
             if "v" in ans and ex["transform"] != ans["v"]:
                 out.append(("transform", "WCS.transform(%s,%s) %s != get_transform evaluation %s" % (a, b, ex["transform"], ans["v"])))
+            if "transform_boxed" in ex and "v" in ans and ex["transform_boxed"] != ex["transform"]:
+                out.append(("transform", "WCS.transform(%s,%s) on a WCS that has a bounding box gives %s, without one %s (the box is the input frame's)" %
+                            (a, b, ex["transform_boxed"], ex["transform"])))
         elif q["k"] == "call":
             if ans["v"] != hand:
                 out.append(("call", "WCS.__call__ gives %s, composing the steps in order gives %s" % (ans["v"], hand)))
